@@ -954,6 +954,8 @@ var specLibFuncs = map[string]types.Type{
 	"os.File.Name":          types.Typ[types.String],
 	"strings.Replace":       types.Typ[types.String],
 	"FileInfo.Name":         types.Typ[types.String],
+	"FileInfo.Size":         types.Typ[types.Int64],
+	"FileInfo.ModTime":      types.Typ[types.Int64], // time.Time is modelled as an integer
 	"time.Time.Add":         types.Typ[types.Int64], // time.Time is modelled as an integer
 	"time.Unix":             types.Typ[types.Int64],
 	"time.Since":            types.Typ[types.Int64],
@@ -1213,6 +1215,10 @@ func (sc *Scope) trCall(x *ECall) (Term, types.Type) {
 	if ct := fc.eng.Contracts[name]; ct != nil && ct.Assumed && ct.Flags["pure"] {
 		// assumed pure interface method: Iface.Method(receiver, args...)
 		rty := sc.ifaceMethodResult(name)
+		if rty == nil {
+			// interface of another package (os.FileInfo ...): known result types
+			rty = specLibFuncs[name]
+		}
 		if rty == nil {
 			sc.fail("%s: cannot determine the result type", name)
 		}
